@@ -175,6 +175,10 @@ def run_c09(ctx, spec):
     evals, distinct = 0, set()
     for name, sd, scenario in scenario_pool(rng, nscen):
         try:
+            if rng.random() < 0.5:
+                # an environment for the same names in another order was alive in this process before
+                from nasim.envs.environment import NASimEnv as _E
+                _E(scen.sd_to_scenario(scen.permuted_sibling(sd)))
             runner, states = walk_states(rng, scenario, sd, nsteps)
             env = runner.env
             lay = runner.lay
@@ -220,13 +224,22 @@ def run_c09(ctx, spec):
                 t = s.tensor
                 s2 = State.from_numpy(t.flatten(), t.shape, s.host_num_map)
                 ok = np.array_equal(s2.tensor, t) and np.array_equal(s.numpy_flat(), t.flatten(order="C"))
-                o = s.get_observation(runner.env.action_space.get_action(0),
-                                      __import__("nasim.envs.action", fromlist=["ActionResult"]).ActionResult(True), True)
-                o2 = Observation.from_numpy(o.numpy_flat(), t.shape)
-                ok = ok and np.array_equal(o2.tensor, o.tensor) and np.array_equal(o.numpy_flat(), o.tensor.flatten(order="C"))
-                ok = ok and o.tensor.shape == (t.shape[0] + 1, t.shape[1])
-                aux = [float(x) for x in o.tensor[-1]]
-                ok = ok and aux[:4] == [1.0, 0.0, 0.0, 0.0] and not any(aux[4:])
+                AR = __import__("nasim.envs.action", fromlist=["ActionResult"]).ActionResult
+                for res_, flags_ in ((AR(False, connection_error=True), [0.0, 1.0, 0.0, 0.0]),
+                                     (AR(False, permission_error=True), [0.0, 0.0, 1.0, 0.0]),
+                                     (AR(False, undefined_error=True), [0.0, 0.0, 0.0, 1.0]),
+                                     (AR(True), [1.0, 0.0, 0.0, 0.0])):
+                    o = s.get_observation(runner.env.action_space.get_action(0), res_, True)
+                    for arr in (o.numpy_flat(), o.numpy().copy()):
+                        o2 = Observation.from_numpy(arr, t.shape)
+                        ok = ok and np.array_equal(o2.numpy(), o.tensor) and np.array_equal(o2.numpy_flat(), o.numpy_flat())
+                        r2, aux2 = o2.get_readable()
+                        ok = ok and [float(aux2[k_]) for k_ in ("Success", "Connection Error", "Permission Error",
+                                                                 "Undefined Error")] == flags_
+                    ok = ok and np.array_equal(o.numpy_flat(), o.tensor.flatten(order="C"))
+                    ok = ok and o.tensor.shape == (t.shape[0] + 1, t.shape[1])
+                    aux = [float(x) for x in o.tensor[-1]]
+                    ok = ok and aux[:4] == flags_ and not any(aux[4:])
                 readable = s.get_readable()
                 rows = state_wire(t, lay)
                 for rd, row in zip(readable, rows):
@@ -502,13 +515,19 @@ def semantic_case(rng, sd, scenario, nops):
     hist = []
     if not same:
         return sdw, hist
+    worked, retry = [], []
     for _ in range(nops):
         if rng.random() < 0.06:
             hist.append(("reset",))
             runner.run_op([0])
+            retry = list(worked[-6:])     # after a reset: what worked before, latest first
             continue
         ai = None
-        for _try in range(6):
+        if retry and rng.random() < 0.85:
+            ai = retry.pop()
+        elif worked and rng.random() < 0.15:
+            ai = rng.choice(worked)
+        for _try in range(6 if ai is None else 0):
             cand = gen.pick_action(runner, flat, {k: v for k, v in by_target.items()}) if by_target else None
             if cand in same:
                 ai = cand
@@ -517,7 +536,9 @@ def semantic_case(rng, sd, scenario, nops):
             ai = rng.choice(same)
         k = gen.pick_draw(flat[ai][3])
         hist.append(("step", ai, dyn.param_vector(rng, sd, flat[ai]), k))
-        runner.run_op([1, [0, ai], k])
+        o_ = runner.run_op([1, [0, ai], k])
+        if o_[0] == 1 and o_[1][4][0] and flat[ai][0] in (4, 5):
+            worked.append(ai)
     # param_vector randomises: re-check each chosen vector decodes to the same action
     chk = run_driver([[2, sdw, [h[2] for h in hist if h[0] == "step"]]])[0]
     it = iter(chk)
@@ -665,6 +686,8 @@ def run_c13(ctx, spec):
                 ai = gen.pick_action(runner, flat, by_target)
                 wa = flat[ai]
                 x = [0, ai] if modes[1] else [1, dyn.param_vector(rng, sd, wa)]
+                if rng.random() < 0.08:
+                    x = [2, [6, [1, 0], 0, TWO53, 0, 0, 0, [], 0]]     # the no-op, as an Action object
                 k = gen.pick_draw(wa[3])
                 for which in ("current", "older"):
                     idx = len(runner.pool) - 1 if which == "current" else rng.randrange(len(runner.pool))
